@@ -115,6 +115,8 @@ deriving DecidableEq, Repr
 
 /-- the key with the rotation function as a parameter -/
 def keyWith (rot : Str → Str) (s : Str) : Key :=
+  -- `Hash` first rejects every non-ASCII rune, then upper-cases and checks the alphabet
+  if s.any (fun c => c.toNat > 127) then .invalid else
   let u := upper s
   if u.all (fun c => Seqhash.nucleotideLetters.contains c) then
     match Seqhash.canon (fun x => some (rot x)) u true true with
